@@ -1,7 +1,9 @@
 mod alloc;
 mod checks_a;
 mod checks_b;
+mod checks_c20;
 mod checks_codec;
+mod checks_prio2;
 mod checks_twin;
 mod core;
 mod driver;
@@ -26,6 +28,8 @@ fn registry() -> Vec<Box<dyn Check>> {
     v.extend(checks_a::checks());
     v.extend(checks_b::checks());
     v.extend(checks_codec::checks());
+    v.extend(checks_c20::checks());
+    v.extend(checks_prio2::checks());
     v.extend(checks_twin::checks());
     v
 }
